@@ -301,6 +301,18 @@ theorem kruskal_ttvCore_spec [CommSemiring α] (K : Ktensor α) (pairs : List (N
       rw [this, ← hN, ← hrem]
       ring
 
+/-- A vector whose length differs from the extent of its mode is rejected. -/
+theorem kruskal_ttvCore_rejects [Add α] [Mul α] [Zero α] (K : Ktensor α) (pairs : List (Nat × List α))
+    (h : ∃ p ∈ pairs, p.2.length ≠ K.shape.getD p.1 0) : K.ttvCore pairs = .error .reject := by
+  unfold Ktensor.ttvCore
+  have : pairs.any (fun p => p.2.length != (K.factors.getD p.1 []).length) = true := by
+    rw [List.any_eq_true]
+    obtain ⟨p, hp, hne⟩ := h
+    refine ⟨p, hp, ?_⟩
+    rw [← kshape_getD]
+    simpa using hne
+  simp only [this, if_true]
+
 /-- **Kruskal `ttv` as called** with `dims` in any order and one vector per listed mode. -/
 theorem kruskal_ttv_dims [CommSemiring α] (K : Ktensor α) (d : List Nat) (vs : List (List α))
     (hd : d.Nodup) (hN : ∀ x ∈ d, x < K.factors.length) (hl : vs.length = d.length)
